@@ -1,10 +1,18 @@
 /* Promela model of the worker protocol of parallel constructSurrogate() (Addons/tsgConstructSurrogate.hpp, constructCommon).
- * One model step = one scheduling unit of engine E-C (engines/sched/sched.hpp): the chosen thread runs from its current choice point to
- * the next interposed synchronisation operation it reaches; the step is labelled with that operation. With -DHIST every step is recorded in a
- * history variable (paths are never merged) and each complete run prints its history from a c_code block: these are ALL traces of the
- * model, which engine E-C replays on the implementation (thread ids as the schedule, labels compared with the real operation trace).
- * Without -DHIST the model is verified for deadlock freedom, budget and exactly-once over all interleavings with state merging.
- * Parameters: NW workers, BUDGET samples, POOL candidates available in total, batch size 1. */
+ *
+ * Binding to the code: ONE model step = ONE scheduling block of engine E-C (engines/sched/sched.hpp): the chosen thread runs from its
+ * current choice point to the next interposed synchronisation operation it reaches; the step is labelled with that operation
+ * (the labels are exactly the operation names in the trace that E-C records from the real code: "tid:op").
+ *
+ *   (default)   verification over ALL interleavings with state merging: deadlock freedom (invalid end states), budget, exactly-once
+ *   -DHIST      every step is recorded in a history variable (paths are never merged); each complete run prints its history from a c_code
+ *               block: these are ALL traces of the model; E-C replays each on the implementation (thread ids = the schedule, labels
+ *               compared with the recorded operations)
+ *   -DFOLLOW    (implies HIST) acceptor: only the run given in the file $VERIF_TRACE can be taken; prints ACCEPTED when it is a complete
+ *               run of the model: used to check that every execution of the implementation explored by E-C is a behaviour of the model
+ *   -DNOYIELD   the model callback has no explicit choice points (fewer interleavings for the all-traces replay)
+ * Parameters: NW workers, BUDGET samples, POOL candidates available in total (batch size 1).
+ */
 #ifndef NW
 #define NW 2
 #endif
@@ -17,7 +25,7 @@
 #define DONE 0
 #define COMPUTING 1
 #define SHUTDOWN 2
-/* labels = operation reached at the end of a step */
+/* labels = operation reached at the end of a step (same numbering as in engines/sched/sched_conform.cpp) */
 #define L_CREATE 1
 #define L_LOCK 2
 #define L_UNLOCK 3
@@ -29,13 +37,36 @@
 #define L_MB 9
 #define L_ME 10
 
+#ifdef FOLLOW
+#ifndef HIST
+#define HIST
+#endif
+c_decl {
+    \#include <stdio.h>
+    \#include <stdlib.h>
+    static int f_n = -1; static int f_p[256]; static int f_l[256]; static int f_bad = 0;
+    static void f_load(void){ const char *fn = getenv("VERIF_TRACE"); FILE *f = fn ? fopen(fn, "r") : NULL; f_n = 0; if (!f){ f_bad = 1; return; } int p, l; while(f_n < 256 && fscanf(f, "%d:%d", &p, &l) == 2){ f_p[f_n] = p; f_l[f_n] = l; f_n++; } fclose(f); }
+}
+/* Spin accepts no function calls in c_expr: the trace is loaded by the first statement of Main, the guards are array look-ups.
+   The last block of main (after the last join) ends without an operation: it is the step with hn == f_n */
+#define TURNW c_expr{ !f_bad && now.hn < f_n && f_p[now.hn] == PWorker->id + 1 }
+#define TURNM c_expr{ !f_bad && ((now.hn < f_n && f_p[now.hn] == 0) || now.hn == f_n) }
+#else
+#define TURNW true
+#define TURNM true
+#endif
+
 byte flag[NW]; bool created[NW]; bool finished[NW];
 byte count_done = 0, launched = 0, running = 0, avail = POOL, computed = 0;
 bool locked = false; bool mainWaits = false; bool mainSignalled = false; bool wWaits[NW]; bool wSignalled[NW];
-bool inModel[NW]; bool mainDone = false;
+bool inModel[NW];
 #ifdef HIST
-byte hist[96]; byte hn = 0;
+byte hist[128]; byte hn = 0;
+#ifdef FOLLOW
+#define REC(p, l) c_code{ if (!(now.hn < f_n && f_l[now.hn] == l)) f_bad = 1; }; hist[hn] = (p) * 16 + (l); hn++
+#else
 #define REC(p, l) hist[hn] = (p) * 16 + (l); hn++
+#endif
 #else
 #define REC(p, l) skip
 #endif
@@ -46,34 +77,41 @@ inline assign_or_shutdown(id){
     :: else -> flag[id] = SHUTDOWN
     fi
 }
-
-proctype Worker(byte id){
-    byte my = COMPUTING;
-    /* thread id in E-C = id + 1 */
-    do
-    :: my == COMPUTING ->
-        atomic{ assert(!inModel[id]); inModel[id] = true; computed++; REC(id+1, L_MB) }      /* enters the model callback, reaches yield(model-begin) */
-        atomic{ REC(id+1, L_ME) }                                                             /* reaches yield(model-end) */
-        atomic{ inModel[id] = false; REC(id+1, L_LOCK) }                                      /* model returned, reaches lock_guard */
-        atomic{ !locked -> flag[id] = DONE; count_done++; REC(id+1, L_UNLOCK) }               /* critical section; the unlock takes effect, choice point after it */
-        atomic{ if :: mainWaits -> mainWaits = false; mainSignalled = true :: else -> skip fi; REC(id+1, L_SIGNAL) } /* notify_one(until_someone_done) */
-        atomic{ REC(id+1, L_LOCK) }                                                           /* reaches unique_lock */
-        atomic{ !locked -> locked = true;
-                if :: flag[id] == DONE -> locked = false; wWaits[id] = true; REC(id+1, L_WAIT)
-                   :: else -> my = flag[id]; locked = false; REC(id+1, L_UNLOCK); goto decided
-                fi }
-        do
-        :: atomic{ wSignalled[id] && !locked -> wSignalled[id] = false; locked = true;
-                if :: flag[id] == DONE -> locked = false; wWaits[id] = true; REC(id+1, L_WAIT)
-                   :: else -> my = flag[id]; locked = false; REC(id+1, L_UNLOCK); goto decided
-                fi }
-        od;
-decided: skip
-    :: else -> break
-    od;
-    atomic{ finished[id] = true; REC(id+1, L_EXIT) }
+/* entering the model callback: with yields the block ends at model-begin, without it runs through the callback to the lock_guard */
+inline enter_model(id){
+    assert(!inModel[id]); computed++;
+#ifdef NOYIELD
+    REC(id+1, L_LOCK); wpc = 3
+#else
+    inModel[id] = true; REC(id+1, L_MB); wpc = 1
+#endif
+}
+inline wait_or_take(id){ /* body of until_new_job.wait(lock, pred) with the lock held */
+    if :: flag[id] == DONE -> locked = false; wWaits[id] = true; REC(id+1, L_WAIT); wpc = 7
+       :: else -> my = flag[id]; locked = false; REC(id+1, L_UNLOCK); wpc = 8
+    fi
 }
 
+proctype Worker(byte id){
+    byte my = COMPUTING; byte wpc = 0;   /* thread id in E-C = id + 1 */
+    do
+    :: atomic{ wpc == 0 && TURNW -> enter_model(id) }
+    :: atomic{ wpc == 1 && TURNW -> REC(id+1, L_ME); wpc = 2 }
+    :: atomic{ wpc == 2 && TURNW -> inModel[id] = false; REC(id+1, L_LOCK); wpc = 3 }
+    :: atomic{ wpc == 3 && !locked && TURNW -> flag[id] = DONE; count_done++; REC(id+1, L_UNLOCK); wpc = 4 }      /* lock_guard section, the unlock has taken effect */
+    :: atomic{ wpc == 4 && TURNW -> if :: mainWaits -> mainWaits = false; mainSignalled = true :: else -> skip fi; REC(id+1, L_SIGNAL); wpc = 5 }
+    :: atomic{ wpc == 5 && TURNW -> REC(id+1, L_LOCK); wpc = 6 }
+    :: atomic{ wpc == 6 && !locked && TURNW -> locked = true; wait_or_take(id) }
+    :: atomic{ wpc == 7 && wSignalled[id] && !locked && TURNW -> wSignalled[id] = false; locked = true; wait_or_take(id) }
+    :: atomic{ wpc == 8 && TURNW ->
+            if :: my == COMPUTING -> enter_model(id)
+               :: else -> finished[id] = true; REC(id+1, L_EXIT); wpc = 9
+            fi }
+    :: wpc == 9 -> break
+    od
+}
+
+byte mpc = 0; byte li = 0; byte jn = 0; byte jt = 0;
 inline collect(){
     byte k = 0;
     do
@@ -84,45 +122,49 @@ inline collect(){
     :: else -> break
     od
 }
+inline locked_section(){ /* body of until_someone_done.wait(lock, pred) + collect with the lock held */
+    if :: count_done == 0 -> locked = false; mainWaits = true; REC(0, L_WAIT); mpc = 3
+       :: else -> count_done = 0; collect(); locked = false; REC(0, L_UNLOCK); mpc = 4
+    fi
+}
+inline loop_top_or_join(){ /* while(manager.getNumRunning() > 0) ... ; then join every created worker in order */
+    if :: running > 0 -> REC(0, L_LOCK); mpc = 2
+       :: else ->
+            do :: jn < NW && !created[jn] -> jn++ :: else -> break od;
+            if :: jn < NW -> jt = jn; REC(0, L_JOIN); mpc = 5
+               :: else -> mpc = 6
+            fi
+    fi
+}
 
 active proctype Main(){
-    byte i = 0; byte j = 0;
-    /* launch loop: every pthread_create is a choice point (after the thread exists) */
+#ifdef FOLLOW
+    c_code{ f_load(); };
+#endif
     do
-    :: i < NW ->
-        atomic{ assign_or_shutdown(i);
-                if :: flag[i] == COMPUTING -> created[i] = true; run Worker(i); REC(0, L_CREATE) :: else -> skip fi; i++ }
-    :: else -> break
-    od;
-    do
-    :: running > 0 ->
-        atomic{ REC(0, L_LOCK) }
-        atomic{ !locked -> locked = true;
-                if :: count_done == 0 -> locked = false; mainWaits = true; REC(0, L_WAIT)
-                   :: else -> count_done = 0; collect(); locked = false; REC(0, L_UNLOCK); goto released
-                fi }
-        do
-        :: atomic{ mainSignalled && !locked -> mainSignalled = false; locked = true;
-                if :: count_done == 0 -> locked = false; mainWaits = true; REC(0, L_WAIT)
-                   :: else -> count_done = 0; collect(); locked = false; REC(0, L_UNLOCK); goto released
-                fi }
-        od;
-released:
-        atomic{ j = 0; do :: j < NW -> if :: wWaits[j] -> wWaits[j] = false; wSignalled[j] = true :: else -> skip fi; j++ :: else -> break od; REC(0, L_BCAST) }
-    :: else -> break
-    od;
-    /* join every created worker, in order */
-    i = 0;
-    do
-    :: i < NW ->
-        if :: created[i] -> atomic{ REC(0, L_JOIN) }; atomic{ finished[i] -> skip }
-           :: else -> skip
-        fi; i++
-    :: else -> break
-    od;
-    atomic{ assert(launched <= BUDGET); assert(computed == launched); assert(running == 0); mainDone = true;
+    :: atomic{ mpc == 0 && TURNM ->   /* launch loop up to the next pthread_create (its choice point comes after the thread exists) */
+            do
+            :: li < NW -> assign_or_shutdown(li);
+                    if :: flag[li] == COMPUTING -> created[li] = true; run Worker(li); li++; REC(0, L_CREATE); break
+                       :: else -> li++
+                    fi
+            :: else -> loop_top_or_join(); break
+            od }
+    :: atomic{ mpc == 2 && !locked && TURNM -> locked = true; locked_section() }
+    :: atomic{ mpc == 3 && mainSignalled && !locked && TURNM -> mainSignalled = false; locked = true; locked_section() }
+    :: atomic{ mpc == 4 && TURNM -> jt = 0; do :: jt < NW -> if :: wWaits[jt] -> wWaits[jt] = false; wSignalled[jt] = true :: else -> skip fi; jt++ :: else -> break od; REC(0, L_BCAST); mpc = 7 }
+    :: atomic{ mpc == 7 && TURNM -> loop_top_or_join() }
+    :: atomic{ mpc == 5 && finished[jt] && TURNM -> jn = jt + 1; mpc = 8; loop_top_or_join() }
+    :: atomic{ mpc == 6 ->
+            assert(launched <= BUDGET); assert(computed == launched); assert(running == 0);
 #ifdef HIST
+#ifdef FOLLOW
+            c_code{ if (!f_bad && now.hn == f_n) printf("ACCEPTED\n"); }
+#else
             c_code{ int q; for(q = 0; q < now.hn; q++) printf("%d:%d ", now.hist[q] / 16, now.hist[q] % 16); printf("\n"); }
 #endif
-    }
+#endif
+            mpc = 9 }
+    :: mpc == 9 -> break
+    od
 }
